@@ -190,7 +190,7 @@ def wellformed(rng):
     return text, (-total if neg else total)
 
 
-MALFORMED_BASE = ["1hx", "1h ", " 1h", "1 h", "1h 30m", "1", "10", "1h30", "--1s", "-+1s", "1h-30m", "1h+30m", "1e3s", "1E3s",
+MALFORMED_BASE = [".s", "-.ms", "1h.m", "1h30m.s", ".", "-.", ".h", "1s.ns", ".us1s", "1hx", "1h ", " 1h", "1 h", "1h 30m", "1", "10", "1h30", "--1s", "-+1s", "1h-30m", "1h+30m", "1e3s", "1E3s",
                   "infs", "nans", "inf", "nan", "-infs", "Infs", "", "s", "h", "ms", "-", "-s", "1d", "1sec", "1S", "1H", "1Ms",
                   "1.2.3s", "1,5s", "1_000s", "0x10s", "1h1", "1m1h1", "..5s", "1..5s", "1.5.s", "-", "--0", "0s0", "1s-",
                   "1s.", "s1", "1hh", "1µ", "1μ", "1u", "1n", "١s", "1s\n", "\t1s", "1s\u0000", "1ｓ", "9223372036854775808ns",
@@ -259,8 +259,11 @@ def run_unit(unit, drv, res, seed, tier):
                 t2 = t.replace('s', 'S', 1) if 's' in t else t.upper()
             elif m < 0.9:
                 t2 = t + t[0:1].replace('-', '') + "-1s"
-            else:
+            elif m < 0.95:
                 t2 = rng.choice(["inf", "nan", "infinity", "1e3", "1e-3", "0x1p3"]) + rng.choice(['s', 'ms', 'h', ''])
+            else:
+                # a term whose number is only a decimal point
+                t2 = t + "." + rng.choice(['s', 'ms', 'us', 'ns', 'm', 'h'])
             texts.append(t2)
         for t in texts:
             ref = parse_ref(t)
